@@ -334,3 +334,21 @@ def r4(ctx, R):
     fn = repo.func(rel, 'LogSolution.post_step')
     vals = [ast.unparse(k.value) for c in ast.walk(fn) if isinstance(c, ast.Call) and isinstance(c.func, ast.Attribute) and c.func.attr == 'add_to_stats' for k in c.keywords if k.arg == 'value']
     R.check(vals == ['L.uend'], 'LogSolution.post_step :: logs L.uend by reference (kept safe by R3/R4: nobody writes into it afterwards)', f'{rel}:LogSolution.post_step', ['L.uend'], vals)
+
+
+COPYING = ('ascontiguousarray', 'asfortranarray', 'array', 'copy', 'deepcopy', 'require', 'astype', 'flatten', 'tolist')
+
+
+@rule('C13', 'C13.R5', 'multi-component meshes expose WRITABLE VIEWS of one buffer: the component accessor returns a basic-index view of self (no copying call in between), for the component index of the requested name, and refuses unknown names / unexpected shapes', floor=3)
+def r5(ctx, R):
+    repo = ctx.repo
+    rel = DT + 'mesh.py'
+    fn = repo.func(rel, 'MultiComponentMesh.__getattr__')
+    w = f'{rel}:MultiComponentMesh.__getattr__'
+    R.fn(w)
+    rets = [s.value for s in ast.walk(fn) if isinstance(s, ast.Return) and s.value is not None]
+    R.check(len(rets) == 1 and ast.unparse(rets[0]) == 'self[self.components.index(name)].view(mesh)', 'MultiComponentMesh.__getattr__ :: returns self[<index of the component>].view(mesh)', w, 'self[self.components.index(name)].view(mesh)', [ast.unparse(r) for r in rets])
+    calls = sorted({c.func.attr if isinstance(c.func, ast.Attribute) else getattr(c.func, 'id', '?') for r in rets for c in ast.walk(r) if isinstance(c, ast.Call)})
+    R.check(not (set(calls) & set(COPYING)), 'MultiComponentMesh.__getattr__ :: no copying call between the buffer and the object handed out (a write through the component must reach the parent, also for sliced / strided parents)', w, 'only indexing and .view()', calls)
+    raises = [ast.unparse(s.exc)[:40] for s in ast.walk(fn) if isinstance(s, ast.Raise) and s.exc is not None]
+    R.check(len(raises) == 2 and all(r.startswith('AttributeError') for r in raises), 'MultiComponentMesh.__getattr__ :: unknown names and unexpected shapes raise AttributeError', w, 'two raising arms', raises)
